@@ -1588,6 +1588,46 @@ def check_interleaved(ctx, rng):
                       oracle="sd_case_ok")
 
 
+def run_hc_impl(case):
+    """histories of default-built GenericSubproblemSolver objects (directly or as ADMM's own
+    default) and writes through one object's minimize_kwargs; -> maxiter read through every object"""
+    from scico.optimize.admm import GenericSubproblemSolver
+    objs = []
+    for code, i, v in case["ops"]:
+        if code == 0:
+            if case["via_admm"]:
+                objs.append(interleave_catalogue()["ADMM/default"](0).subproblem_solver)
+            else:
+                objs.append(GenericSubproblemSolver())
+        else:
+            objs[i].minimize_kwargs["options"]["maxiter"] = v
+    return [int(o.minimize_kwargs["options"]["maxiter"]) for o in objs]
+
+
+def check_helper_contents(ctx, rng):
+    items, meta = [], []
+    for _ in range(ctx.n(6, 40)):
+        ops, n = [], 0
+        for _ in range(rng.randint(3, 7)):
+            if n == 0 or rng.random() < 0.4:
+                ops.append([0, 0, 0]); n += 1
+            else:
+                ops.append([1, rng.randrange(n), rng.randint(1, 50)])
+        case = {"via_admm": rng.random() < 0.3, "ops": ops}
+        obs = run_hc_impl(case)
+        ctx.count("default-helper-content-history", case)
+        items.append("(" + zl(100) + ", " + coq_list([f"({c}, {i}, {zl(v)})" for c, i, v in ops]) + ", "
+                     + coq_list([zl(v) for v in obs]) + ")")
+        meta.append((case, obs))
+    body = "Definition cases := " + coq_list(items, ";\n ") + ".\nEval vm_compute in (TVNorm.bad_idx hc_case_ok cases 0%nat)."
+    for idx in parse_eval_nat_list(coq_eval_shards("C19_hc", HEADER, [body])[0]):
+        case, obs = meta[idx]
+        ctx.violation("default-helper-content", "a write through one default-built solver's minimize_kwargs is visible through "
+                      "another one (or the default content is not {'options': {'maxiter': 100}})",
+                      case, expected="SharedDefault.v hrun PerCall (every object keeps its own helper)", observed=obs,
+                      oracle="hc_case_ok")
+
+
 def run_sd_impl(case):
     import scico.numpy as snp
     from scico import linop, functional, loss
@@ -1808,7 +1848,7 @@ def run(ctx: Ctx):
         "CLAUSE 'same value eagerly / under jax.jit / constructor jit on-off / jax.disable_jit': decided by correspondence only",
         "lazy fields an object may set on ITSELF are not counted as mutation: " + ", ".join(LAZY_FIELDS),
         "scico.random nested shapes: every block is drawn with the SAME key (blocks of equal shape are identical) -- pure, so not a C19 violation; noted",
-        "GenericSubproblemSolver instances built without arguments alias one shared default dictionary; no library code writes to it (static checker + snapshot), a user writing solver.minimize_kwargs[...] would change all of them -- noted",
+        "GenericSubproblemSolver builds its default minimize_kwargs per instance (fix 181f4c4): modelled by SharedDefault.v (per-call helper objects); stream H reports any helper object shared between two independently built solvers",
     ]
     rng = ctx.rng
     import time as _time
@@ -1955,6 +1995,7 @@ def run(ctx: Ctx):
     check_solvers(ctx, rng)
     mark("G-solvers")
     check_interleaved(ctx, rng)
+    check_helper_contents(ctx, rng)
     mark("H-interleaved")
     check_reattach(ctx, rng)
     mark("I-reattach")
@@ -1968,8 +2009,8 @@ def run(ctx: Ctx):
             ctx.violation("shared-default:" + k, "a mutable default argument changed during the run",
                           {"default": k}, expected=str(defaults_before.get(k))[:200], observed=str(snapshot(v))[:200],
                           oracle="deep snapshot")
-    ctx.obligation("scico.optimize._admmaux.GenericSubproblemSolver.__init__#0" in after,
-                   "the mutable default minimize_kwargs of GenericSubproblemSolver is among the watched defaults", str(sorted(after))[:400])
+    ctx.notes.append(f"mutable default arguments found in scico and watched for the whole run: {len(after)} "
+                     + str(sorted(after))[:300])
 
 
 def replay(ctx: Ctx, rec):
@@ -1997,6 +2038,11 @@ def replay(ctx: Ctx, rec):
         c2.known = []
         run_reattach(c2, c["solver"], c["variant"], c.get("steps", 2))
         return not c2.violations and not c2.broken
+    if unit == "default-helper-content":
+        obs = run_hc_impl(c)
+        body = ("Definition cases := [(" + zl(100) + ", " + coq_list([f"({a}, {i}, {zl(v)})" for a, i, v in c["ops"]]) + ", "
+                + coq_list([zl(v) for v in obs]) + ")].\nEval vm_compute in (TVNorm.bad_idx hc_case_ok cases 0%nat).")
+        return parse_eval_nat_list(coq_eval_shards("C19_replay", HEADER, [body])[0]) == []
     if unit == "default-step-size-policy":
         obs = run_sd_impl(c)
         body = ("Definition cases := [(" + coq_list([f"({a}, {zl(v)})" for a, v in c["ops"]]) + ", "
